@@ -311,9 +311,12 @@ def run_dir(acc: Acc, seed: int, idx: int, nlines: int, only=None) -> None:
                     if want_o is not None and got != want_o:
                         acc.violation(f"line {line!r}: option {k} -> {got}, but target #{k} alone ({want_t[1]!r}) -> {want_o}", case, cls="option k != opening the k-th target alone")
                         break
-                ro, _ = act(fname, 3, n + 1)
-                if ro.rc == 0 or ro.out.strip():
-                    acc.violation(f"line {line!r}: option {n + 1} (out of range) -> rc={ro.rc} out={ro.out!r}", case, cls="out-of-range option accepted")
+                # indices that name none of the offered targets: n+1, and the non-positive ones other than -1
+                for bad in (n + 1, (0, -2, -(n + 1))[li % 3]):
+                    ro, _ = act(fname, 3, bad)
+                    if ro.rc == 0 or ro.out.strip():
+                        acc.violation(f"line {line!r}: option {bad} (names none of the {n} offered targets) -> rc={ro.rc} out={ro.out!r}", case, cls="out-of-range option accepted")
+                        break
             # frame condition: indexed pages untouched
             now = {str(p.relative_to(root)): p.read_bytes() for p in sorted(root.rglob("*.zo")) if str(p.relative_to(root)) in snapshot}
             if now != snapshot:
